@@ -2356,7 +2356,9 @@ impl InferContext {
                     _ => Err(vec![Error::IndexForNonTuple(loc, tup)]),
                 }
             }
-            Expr::RecordLiteral(kvs) => {
+            // An incomplete record `{a = 1, ..}` has the type of the fields it spells out;
+            // the call rule below fills the omitted parameters from their defaults.
+            Expr::RecordLiteral(kvs) | Expr::ImcompleteRecord(kvs) => {
                 let duplicate_keys = kvs
                     .iter()
                     .map(|RecordField { name, .. }| *name)
